@@ -246,7 +246,8 @@ End Resolver.
 Inductive itree := ILeaf (i : nat) | IPlus (a b : itree).
 Inductive op :=
 | OpTree (e : itree)                     (* push the value of a bracketing of + over registers *)
-| OpResolve (specs : list str)           (* push resolver.resolve(specs); registry = the initial operands *)
+| OpResolve (specs : list str)           (* push resolver.resolve(specs); resolver table given with the history *)
+| OpSum (l : list nat)                   (* push sum([regs...]) (non-empty lists: 0 + p is p, then +) *)
 | OpInit (b : bool) (u : option nat)     (* backend b: processing_pipeline := reg u; init_processing_pipeline *)
 | OpRun (b : bool)                       (* backend b: convert_rule on every rule + finalize, no re-initialisation *)
 | OpConvert (b : bool) (u : option nat). (* backend b: processing_pipeline := reg u; Backend.convert() *)
@@ -264,53 +265,134 @@ Definition asum (l : list apipe) : outcome apipe :=
   | [] => Ok aempty
   | p :: l' => fold_left (fun acc q => obind acc (fun s => aplus_checked s q)) l' (Ok p)
   end.
-Definition aentry := (apipe * Z * option str)%type.
-Definition aresolve (reg : list aentry) (specs : list str) : outcome apipe :=
-  match resolve_order (fun e : aentry => snd e) (fun e : aentry => snd (fst e)) reg specs with
-  | None => SigmaErr E_NotFound
-  | Some l => asum (map (fun e : aentry => fst (fst e)) l)
+(* the resolver table: identifier -> a registered pipeline object, or something that yields a fresh
+   pipeline at every resolution (a callable, or a YAML file named by the spec). Identifiers are
+   unrelated to the `name` of the pipelines. *)
+Record pdef := { d_items : list pitem; d_post : list ppost; d_fin : list pfin; d_vars : dict;
+                 d_prio : Z; d_name : option str }.
+Inductive rent (A : Type) :=
+| RObj (a : A)               (* a registered pipeline object *)
+| RCall (d : pdef)           (* a callable / YAML file: a fresh pipeline with this definition at every resolution *)
+| RSeq (ds : list pdef).     (* a callable with a memory: its k-th call yields the k-th definition (the last one
+                                from then on).  k is the instantiation counter of the whole history, which is
+                                the entry's own call count when it is the only callable / file of the table *)
+Arguments RObj {A} a.
+Arguments RCall {A} d.
+Arguments RSeq {A} ds.
+Definition def_empty : pdef := {| d_items := []; d_post := []; d_fin := []; d_vars := []; d_prio := 0%Z; d_name := None |}.
+Definition seq_pick (c : N) (ds : list pdef) : pdef := nth (N.to_nat c) ds (last ds def_empty).
+Definition tab_nm {A} (e : str * rent A) : option str := Some (fst e).
+Definition apipe_of (d : pdef) : apipe :=
+  {| a_items := d_items d; a_post := d_post d; a_fin := d_fin d; a_vars := d_vars d |}.
+(* fresh objects: the c-th instantiation gets identities FRESH_BASE + 64 c, ... *)
+Definition FRESH_BASE : N := 1048576.
+Fixpoint renum_items (u : N) (l : list pitem) : list pitem :=
+  match l with
+  | [] => []
+  | i :: l' => {| i_uid := u; i_id := i_id i; i_kind := i_kind i; i_cond := i_cond i |} :: renum_items (N.succ u) l'
+  end.
+Fixpoint renum_post (u : N) (l : list ppost) : list ppost :=
+  match l with
+  | [] => []
+  | q :: l' => {| q_uid := u; q_id := q_id q; q_kind := q_kind q; q_cond := q_cond q |} :: renum_post (N.succ u) l'
+  end.
+Fixpoint renum_fin (u : N) (l : list pfin) : list pfin :=
+  match l with
+  | [] => []
+  | x :: l' => {| f_uid := u; f_sep := f_sep x; f_pre := f_pre x; f_suf := f_suf x |} :: renum_fin (N.succ u) l'
+  end.
+Definition renum (c : N) (d : pdef) : pdef :=
+  let u0 := FRESH_BASE + 64 * c in
+  let u1 := u0 + N.of_nat (length (d_items d)) in
+  let u2 := u1 + N.of_nat (length (d_post d)) in
+  {| d_items := renum_items u0 (d_items d); d_post := renum_post u1 (d_post d); d_fin := renum_fin u2 (d_fin d);
+     d_vars := d_vars d; d_prio := d_prio d; d_name := d_name d |}.
+Definition aval := (apipe * Z)%type.      (* a pipeline value and its priority *)
+Definition aent_prio (e : str * rent aval) : Z :=
+  match snd e with RObj a => snd a | RCall d => d_prio d | RSeq ds => d_prio (seq_pick 0 ds) end.
+Fixpoint ainst_all (c : N) (l : list ((str * rent aval) * str)) : list (aval * str) * N :=
+  match l with
+  | [] => ([], c)
+  | es :: l' => match snd (fst es) with
+                | RObj a => let r := ainst_all c l' in ((a, snd es) :: fst r, snd r)
+                | RCall d => let r := ainst_all (N.succ c) l' in
+                             (((apipe_of (renum c d), d_prio d), snd es) :: fst r, snd r)
+                | RSeq ds => let d := seq_pick c ds in
+                             let r := ainst_all (N.succ c) l' in
+                             (((apipe_of (renum c d), d_prio d), snd es) :: fst r, snd r)
+                end
+  end.
+(* every spec is looked up (and instantiated) first, then ordered by (priority, spec), then summed *)
+Definition aresolve (c : N) (t : list (str * rent aval)) (specs : list str) : outcome apipe * N :=
+  match resolve_all tab_nm t specs with
+  | None => (SigmaErr E_NotFound, c)
+  | Some l => let r := ainst_all c l in
+              (asum (map (fun x : aval * str => fst (fst x)) (isort (info_leb (fun a : aval => snd a)) (fst r))), snd r)
+  end.
+Fixpoint conv_tab {A} (l : list A) (t : list (str * rent nat)) : option (list (str * rent A)) :=
+  match t with
+  | [] => Some []
+  | (s, RObj i) :: t' => match nth_error l i, conv_tab l t' with
+                         | Some a, Some r => Some ((s, RObj a) :: r)
+                         | _, _ => None
+                         end
+  | (s, RCall d) :: t' => match conv_tab l t' with Some r => Some ((s, RCall d) :: r) | None => None end
+  | (s, RSeq ds) :: t' => match conv_tab l t' with Some r => Some ((s, RSeq ds) :: r) | None => None end
+  end.
+Fixpoint nths {A} (l : list A) (is : list nat) : option (list A) :=
+  match is with
+  | [] => Some []
+  | i :: is' => match nth_error l i, nths l is' with Some a, Some r => Some (a :: r) | _, _ => None end
   end.
 Definition ainit (f : fmt) (bk : apipe) (user : option apipe) (outf : apipe) : outcome apipe :=
   obind (match user with None => Ok bk | Some u => aplus_checked bk u end) (fun s1 =>
   obind (aplus_checked s1 outf) (fun s2 => Ok (with_backend_vars f s2))).
 
 Record amach := { am_regs : list apipe; am_lastA : option apipe; am_lastB : option apipe;
-                  am_res : option result }.
+                  am_res : option result; am_fresh : N }.
 Definition am_last (m : amach) (b : bool) := if b then am_lastB m else am_lastA m.
 Definition am_set_last (m : amach) (b : bool) (p : apipe) : amach :=
   {| am_regs := am_regs m; am_lastA := if b then am_lastA m else Some p;
-     am_lastB := if b then Some p else am_lastB m; am_res := am_res m |}.
+     am_lastB := if b then Some p else am_lastB m; am_res := am_res m; am_fresh := am_fresh m |}.
 Definition am_user (m : amach) (u : option nat) : outcome (option apipe) :=
   match u with
   | None => Ok None
   | Some i => match nth_error (am_regs m) i with Some p => Ok (Some p) | None => Crash C_Harness end
   end.
-Definition astep (f : fmt) (reg : list aentry) (bk outf : apipe) (rules : list rule)
+Definition am_push (m : amach) (c : N) (p : apipe) : amach :=
+  {| am_regs := am_regs m ++ [p]; am_lastA := am_lastA m; am_lastB := am_lastB m; am_res := am_res m; am_fresh := c |}.
+Definition am_with_res (m : amach) (r : result) : amach :=
+  {| am_regs := am_regs m; am_lastA := am_lastA m; am_lastB := am_lastB m; am_res := Some r; am_fresh := am_fresh m |}.
+Definition astep (f : fmt) (t : list (str * rent aval)) (bk outf : apipe) (rules : list rule)
            (acc : outcome amach) (o : op) : outcome amach :=
   obind acc (fun m =>
     match o with
-    | OpTree e => if itree_ok (length (am_regs m)) e then obind (aeval (am_regs m) e) (fun p =>
-        Ok {| am_regs := am_regs m ++ [p]; am_lastA := am_lastA m; am_lastB := am_lastB m; am_res := am_res m |})
+    | OpTree e => if itree_ok (length (am_regs m)) e
+                  then obind (aeval (am_regs m) e) (fun p => Ok (am_push m (am_fresh m) p))
                   else Crash C_Harness
-    | OpResolve specs => obind (aresolve reg specs) (fun p =>
-        Ok {| am_regs := am_regs m ++ [p]; am_lastA := am_lastA m; am_lastB := am_lastB m; am_res := am_res m |})
+    | OpResolve specs => let r := aresolve (am_fresh m) t specs in obind (fst r) (fun p => Ok (am_push m (snd r) p))
+    | OpSum l => match nths (am_regs m) l with
+                 | Some (p :: ps) => obind (asum (p :: ps)) (fun s => Ok (am_push m (am_fresh m) s))
+                 | _ => Crash C_Harness
+                 end
     | OpInit b u => obind (am_user m u) (fun up => obind (ainit f bk up outf) (fun p => Ok (am_set_last m b p)))
     | OpRun b => match am_last m b with
                  | None => Crash C_Harness
-                 | Some p => obind (abs_run f p rules) (fun r =>
-                     Ok {| am_regs := am_regs m; am_lastA := am_lastA m; am_lastB := am_lastB m; am_res := Some r |})
+                 | Some p => obind (abs_run f p rules) (fun r => Ok (am_with_res m r))
                  end
     | OpConvert b u => obind (am_user m u) (fun up => obind (ainit f bk up outf) (fun p =>
-                       obind (abs_run f p rules) (fun r =>
-                         let m' := am_set_last m b p in
-                         Ok {| am_regs := am_regs m'; am_lastA := am_lastA m'; am_lastB := am_lastB m'; am_res := Some r |})))
+                       obind (abs_run f p rules) (fun r => Ok (am_with_res (am_set_last m b p) r))))
     end).
 (* the specification of a history: what the last conversion must show *)
-Definition aexec (f : fmt) (reg : list aentry) (bk outf : apipe) (rules : list rule) (prog : list op)
-  : outcome result :=
-  obind (fold_left (astep f reg bk outf rules) prog
-                   (Ok {| am_regs := map (fun e : aentry => fst (fst e)) reg; am_lastA := None; am_lastB := None; am_res := None |}))
-        (fun m => match am_res m with Some r => Ok r | None => Crash C_Harness end).
+Definition aexec (f : fmt) (ops : list aval) (tn : list (str * rent nat)) (bk outf : apipe) (rules : list rule)
+           (prog : list op) : outcome result :=
+  match conv_tab ops tn with
+  | None => Crash C_Harness
+  | Some t =>
+    obind (fold_left (astep f t bk outf rules) prog
+                     (Ok {| am_regs := map fst ops; am_lastA := None; am_lastB := None; am_res := None; am_fresh := 0 |}))
+          (fun m => match am_res m with Some r => Ok r | None => Crash C_Harness end)
+  end.
 
 (* variables over a whole list of pipelines: the last pipeline that defines a name wins *)
 Fixpoint vars_lookup (k : str) (l : list dict) : option str :=
